@@ -102,7 +102,7 @@ class CallMixin:
     def call_member(self, base: Val, cls: str, name: str, args, kwargs, st, node, is_property=False):
         for c in self.class_chain(cls):
             con = self.reg.find_contract(f"{c}.{name}")
-            if con is None and f"{c}.{name}" in self.reg.variants:
+            if con is None and f"{c}.{name}" in self.reg.variants and f"{c}.{name}" not in self.reg.inline:
                 con = self.pick_variant(self.reg.variants[f"{c}.{name}"], args, node)
             if con is not None:
                 fm = self.src.find_method(cls, name)
